@@ -74,6 +74,28 @@ class StartTaskHandler(StabilizeHandler[StartTask]):
         """Inner handle logic to be retried."""
 
         def on_task(stage: StageExecution, task_model: TaskExecution) -> None:
+            # A StartTask is only ever pushed for a RUNNING stage. If the stage was
+            # re-armed (jump) or finished (cancel) in the meantime the message is
+            # stale: starting the task anyway would run it inside a NOT_STARTED
+            # stage and leave it completed, so the stage's next real start ignores
+            # its own StartTask and hangs with all tasks done.
+            if stage.status != WorkflowStatus.RUNNING:
+                logger.debug(
+                    "Ignoring stale StartTask for %s (%s) - stage %s is %s",
+                    task_model.name,
+                    task_model.id,
+                    stage.name,
+                    stage.status,
+                )
+                if message.message_id:
+                    with self.repository.transaction(self.queue) as txn:
+                        txn.mark_message_processed(
+                            message_id=message.message_id,
+                            handler_type="StartTask",
+                            execution_id=message.execution_id,
+                        )
+                return
+
             # Idempotency check - only start tasks that are NOT_STARTED
             if task_model.status != WorkflowStatus.NOT_STARTED:
                 logger.debug(
